@@ -161,3 +161,13 @@ Proof.
   revert l2. induction l1 as [|x l1 IH]; intros [|y l2] H Hl; cbn in *; try lia; [reflexivity|].
   inversion H; subst. f_equal. apply IH; [assumption|lia].
 Qed.
+
+Lemma read_n_text l r : read_n (l ++ 0%N :: r) (length l + 1) = Some (l ++ [0%N]).
+Proof.
+  unfold read_n. rewrite app_length. cbn [length].
+  destruct (Nat.leb_spec (length l + 1) (length l + S (length r))) as [_|H]; [|lia].
+  f_equal. replace (length l + 1) with (length l + 1 + 0) by lia.
+  replace (l ++ 0%N :: r) with ((l ++ [0%N]) ++ r) by (rewrite <- app_assoc; reflexivity).
+  replace (length l + 1 + 0) with (length (l ++ [0%N]) + 0) by (rewrite app_length; cbn; lia).
+  rewrite firstn_app_2. cbn. now rewrite app_nil_r.
+Qed.
